@@ -2,7 +2,7 @@
    Extract Inductive of our own: positive / N / Z stay the extracted inductives. *)
 Require Extraction.
 Require ExtrOcamlBasic.
-From WB Require Import Base.Str Base.Json Model.Key Model.Store Model.Subs Model.Entry Model.Core Model.Codec Model.JsonText Model.Auth Model.Persist Model.Aggregator Model.Session.
+From WB Require Import Base.Str Base.Json Model.Key Model.Store Model.Subs Model.Entry Model.Core Model.Codec Model.JsonText Model.Auth Model.Persist Model.Aggregator Model.Session Model.Election Model.ElectionCodec.
 Extraction Language OCaml.
 Extraction "model.ml" Core.step Core.is_crash Core.run Core.init Core.final Str.dec_of_N Str.split Str.join
   Key.kseg_parse Entry.enc_persisted Entry.dec_persisted N.add N.mul N.of_nat N.to_nat
@@ -10,4 +10,5 @@ Extraction "model.ml" Core.step Core.is_crash Core.run Core.init Core.final Str.
   Auth.pattern_matches Auth.authorize Auth.auth_requirement
   Persist.flush Persist.restart Persist.fs_put Persist.fs_del Persist.pstep
   Aggregator.agg_init Aggregator.agg_step
-  Session.world_init Session.sstep Session.sess_open Session.socket_held.
+  Session.world_init Session.sstep Session.sess_open Session.socket_held
+  Election.einit Election.estep Election.started ElectionCodec.dec_pmsg.
